@@ -2,7 +2,11 @@ package binutils
 
 // Injected by the /verif overlay (never committed): seams for the C20 scenarios.
 
-import "github.com/google/pprof/internal/plugin"
+import (
+	"debug/elf"
+
+	"github.com/google/pprof/internal/plugin"
+)
 
 // VerifC20RW is the tool pipe as seen by the harness.
 type VerifC20RW interface {
@@ -27,4 +31,19 @@ func VerifC20Addr2Liner(rw VerifC20RW, base uint64) func(addr uint64) ([]plugin.
 func VerifC20LLVM(rw VerifC20RW, file string, base uint64, isData bool) func(addr uint64) ([]plugin.Frame, error) {
 	d := &llvmSymbolizer{rw: verifC20rw{rw}, filename: file, base: base, isData: isData}
 	return d.addrInfo
+}
+
+// VerifC20OpenELF opens a synthetic ELF object (a position-independent file with one
+// executable PT_LOAD segment at link-time address 0, length size) mapped at start:
+// the object file a symbolizer shares between goroutines. The relocation base is
+// computed lazily, once, from the first address asked about.
+func VerifC20OpenELF(start, size uint64) (plugin.ObjFile, error) {
+	ef := &elf.File{}
+	ef.Type, ef.Class, ef.Data, ef.Machine = elf.ET_DYN, elf.ELFCLASS64, elf.ELFDATA2LSB, elf.EM_X86_64
+	ef.Progs = []*elf.Prog{{ProgHeader: elf.ProgHeader{Type: elf.PT_LOAD, Flags: elf.PF_R | elf.PF_X, Off: 0, Vaddr: 0, Paddr: 0, Filesz: size, Memsz: size, Align: 4096}}}
+	old := elfOpen
+	elfOpen = func(string) (*elf.File, error) { return ef, nil }
+	_ = old
+	b := &binrep{fast: true}
+	return b.openELF("/c20/lib.so", start, start+size, 0, "")
 }
